@@ -80,26 +80,12 @@ def gen_case(rng, k, tier):
     return c
 
 
-def run_workers(cases, tag, per=1, timeout=1500):
-    if not cases:
-        return []
-    nw = min(cm.NCPU, max(1, len(cases) // per))
-    chunks = [cases[i::nw] for i in range(nw)]
-    res = cm.run_impl_parallel(PID, "c16", [dict(cases=c) for c in chunks], timeout=timeout, tag=tag)
-    out = [None] * len(cases)
-    for w, (rr, ch) in enumerate(zip(res, chunks)):
-        idxs = list(range(w, len(cases), nw))
-        if rr["status"] == "ok":
-            for i, x in zip(idxs, rr["result"]["results"]):
-                out[i] = x
-        else:
-            singles = cm.run_impl_parallel(PID, "c16", [dict(cases=[c]) for c in ch], timeout=600, tag=tag + "_iso")
-            for i, s in zip(idxs, singles):
-                if s["status"] == "ok":
-                    out[i] = s["result"]["results"][0]
-                else:
-                    out[i] = dict(exc=f"PROCESS-{s['status'].upper()}", exc_msg=f"rc={s.get('rc')} {s.get('log', '')[-300:]}")
-    return out
+def run_workers(cases, tag, per=1, timeout=2400):
+    res, _ = hg.run_cases(cm, PID, "c16", cases, tag, per=per, timeout=timeout, notes=WORKER_NOTES)
+    return res
+
+
+WORKER_NOTES = []
 
 
 def judge(R, c, r, stats):
@@ -241,7 +227,8 @@ def run(tier, seed, replay=None):
         "torques are compared relative to force magnitude x (largest body size + centre distance)",
         "harness/compat.py import shim; numpy/numba/OpenBLAS/CPython",
     ]
-    R.check_proofs([f for f in PROOF_FILES if (cm.COQ / f).exists()])
+    R.check_proofs([f for f in PROOF_FILES if (cm.COQ / f).exists()],
+                   build_targets=["theories/Props/C16.vo", "theories/Model/HydroRun.vo", "theories/Checker/Poly.vo"])
     cases = []
     if replay:
         cases.append(json.loads(open(replay).read())["case"])
@@ -346,7 +333,7 @@ def run(tier, seed, replay=None):
                 cert_idx.append((i, ct))
     if cert_exprs:
         try:
-            vs = cm.coq_eval_lines(PID, k15.CERT_HEADER, cert_exprs, tag="cert", per_file=max(8, len(cert_exprs) // (2 * cm.NCPU) + 1), timeout=1500)
+            vs = hg.coq_eval(cm, PID, k15.CERT_HEADER, cert_exprs, "cert", max(8, len(cert_exprs) // (2 * cm.NCPU) + 1), 1500)
             stats["details_certificates"] = len(vs)
             for (i, ct), v in zip(cert_idx, vs):
                 bits = hg.parse_coq_value(v)
@@ -370,7 +357,7 @@ def run(tier, seed, replay=None):
             exprs.append(f"run_express {fpose(ex['old'])} {fpose(ex['new'])} {flist(ex['before'], fv)}")
             idx.append((i, "express"))
     try:
-        outs = cm.coq_eval_lines(PID, MODEL_HEADER, exprs, tag="model", per_file=max(4, len(exprs) // (2 * cm.NCPU) + 1), timeout=1500)
+        outs = hg.coq_eval(cm, PID, MODEL_HEADER, exprs, "model", max(4, len(exprs) // (2 * cm.NCPU) + 1), 1500)
         for (i, kind), txt in zip(idx, outs):
             c, r = cases[i], res[i]
             m = hg.parse_coq_value(txt)
@@ -402,6 +389,8 @@ def run(tier, seed, replay=None):
     R.cov["distinct_nontrivial"] = len(distinct)
     R.cov["input_histogram"] = hist
     R.cov["measured"] = stats
+    if WORKER_NOTES:
+        R.notes.append(dict(worker_retries=list(WORKER_NOTES)))
     for c, r in list(zip(cases, res))[:2]:
         if r and "exc" not in r:
             R.sample(dict(b1=c["b1"], b2=c["b2"], g=c["g"], base=r["base"], swap=r["swap"], moved=r["moved"]))
